@@ -100,12 +100,16 @@ impl Val {
         Val::L(b.iter().map(|c| Val::I(*c as i64)).collect())
     }
     /// a string as the list of clusters the real `CharString` produces
+    /// The segmentation oracle. Taken from `unicode-segmentation` itself (the version /repo's lock file
+    /// pins), NOT from the crate under test, so that a change to `CharString` cannot bend the oracle with it.
     pub fn clusters(s: &str, use_graphemes: bool) -> Val {
-        Val::L(
-            text_utils::unicode::CharString::split(s, use_graphemes)
-                .map(Val::str)
-                .collect(),
-        )
+        use unicode_segmentation::UnicodeSegmentation;
+        if use_graphemes {
+            Val::L(s.graphemes(true).map(Val::str).collect())
+        } else {
+            let mut b = [0u8; 4];
+            Val::L(s.chars().map(|c| Val::str(c.encode_utf8(&mut b))).collect())
+        }
     }
     pub fn to_string_lossy(&self) -> Option<String> {
         let mut s = String::new();
@@ -220,6 +224,17 @@ pub mod units {
         "🇩", "🇪", "\u{1100}", "\u{1161}", "\u{11a8}", "क", "\u{94d}", "ष", "\u{600}", "\u{301}",
         "👩", "\u{200d}", "💻", "\r", "\n",
     ];
+}
+
+/// Independent segmentation (see `Val::clusters`): the pieces of `s` as string slices.
+pub fn split_clusters(s: &str, use_graphemes: bool) -> std::vec::IntoIter<&str> {
+    use unicode_segmentation::UnicodeSegmentation;
+    let v: Vec<&str> = if use_graphemes {
+        s.graphemes(true).collect()
+    } else {
+        s.char_indices().map(|(i, c)| &s[i..i + c.len_utf8()]).collect()
+    };
+    v.into_iter()
 }
 
 /// Run `f`, turning a panic into `Val::panic()`. (Note: once a threaded `Pipe`
